@@ -1,6 +1,7 @@
 mod backend;
 mod checks;
 mod e1;
+mod e1h;
 mod e3;
 mod e4;
 mod e6;
